@@ -10,9 +10,12 @@ MAT = ("sarr", ARR3, 3)
 DARR = ("darr", U256, 6)
 PAIR = ("struct", "Pair", (("a", U256), ("b", U256)))
 
+MAPT = ("map", U256, U256)
 # storage indices
-CTR, SV, ARR, DYN, MATV, FLAG, PV = range(7)
-STO = [("ctr", U256), ("sv", U256), ("arr", ARR4), ("dyn", DARR), ("mat", MAT), ("flg", BOOL), ("pv", PAIR)]
+CTR, SV, ARR, DYN, MATV, FLAG, PV, MP, BAL = range(9)
+STO = [("ctr", U256), ("sv", U256), ("arr", ARR4), ("dyn", DARR), ("mat", MAT), ("flg", BOOL), ("pv", PAIR), ("mp", MAPT),
+       ("$balance", U256)]     # $balance: the contract's ether balance, a reserved cell of the reference program's state
+TV = 0                          # transient index (declared only in programs that contain a transient test)
 
 
 def c(v, t=U256):
@@ -38,10 +41,14 @@ def bump_ctr():
 class Builder:
     """one program = prelude of effect functions + a batch of external test functions"""
 
-    def __init__(self, rng):
+    def __init__(self, rng, with_tra=False):
         self.r = rng
         self.p = Program()
         p = self.p
+        if with_tra:
+            p.tra = [("tv", U256)]
+        self.values = {}     # test index -> msg.value of its call
+        p.c08_values = self.values
         p.structs.append(PAIR)
         p.events = [("Tag", [("x", U256)]), ("Ev2", [("a", U256), ("b", U256)]), ("Ev3", [("a", U256), ("b", U256), ("c", U256)])]
         p.sto = list(STO)
@@ -56,6 +63,9 @@ class Builder:
         # bump: writes the storage variable read elsewhere in the same expression
         self.add_int("bump", [], U256, [S("aug", op="Add", ty=U256, base=bsto(SV), path=[], e=c(10)), log_tag(300),
                                         S("return", e=sto(SV))])
+        # bump1: same effect, returns 1 (a valid index / small operand)
+        self.add_int("bump1", [], U256, [S("aug", op="Add", ty=U256, base=bsto(SV), path=[], e=c(10)), log_tag(301),
+                                         S("return", e=c(1))])
         # h(a, b): a callee with its own tag
         a0 = E("var", U256, name="a0", id=0)
         a1 = E("var", U256, name="a1", id=1)
@@ -77,6 +87,16 @@ class Builder:
                      [S("assign", base=bsto(ARR), path=[("i", c(1))], e=c(55), decl=None),
                       S("assign", base=bsto(DYN), path=[], e=E("list", DARR, elems=[c(66), c(67)]), decl=None),
                       log_tag(700), S("return", e=c(1))])
+        # effects on the other kinds of mutable state read by the read-vs-effect matrix (each returns 1)
+        def eff(name, tag, body):
+            self.add_int(name, [], U256, body + [log_tag(tag), S("return", e=c(1))])
+        if with_tra:
+            eff("bumpt", 710, [S("aug", op="Add", ty=U256, base=("tra", "tv", TV), path=[], e=c(10))])
+        eff("app", 711, [S("append", base=bsto(DYN), path=[], cap=6, e=c(9))])
+        eff("popd", 712, [S("expr", e=E("pop", U256, base=bsto(DYN), path=[]))])
+        eff("wmap", 713, [S("assign", base=bsto(MP), path=[("i", c(2))], e=c(77), decl=None)])
+        eff("wpv", 714, [S("assign", base=bsto(PV), path=[("f", "a", 0)], e=c(89), decl=None)])
+        eff("pay", 715, [S("send", hid=BAL, e=c(10))])
         self.n_ext = 0
 
     def add_int(self, name, params, ret, body):
@@ -101,11 +121,101 @@ class Builder:
         a, b, d = self.r.sample(range(6), 3)
         return self.g(a), self.g(b), self.g(d)
 
-    def add_test(self, label, ret, body, unordered=False):
+    def add_test(self, label, ret, body, unordered=False, value=0):
         name = f"t{self.n_ext}_{label}"
-        self.p.exts.append(Fun(name, [], ret, body, True))
+        if value:
+            body = [S("credit", hid=BAL)] + body
+            self.values[self.n_ext] = value
+        self.p.exts.append(Fun(name, [], ret, body, True, payable=bool(value)))
         self.unordered[self.n_ext] = unordered
         self.n_ext += 1
+
+    # ------------------------------------------------------------ read-vs-effect matrix
+    # READS: kind of mutable state read by the LEFT operand -> (setup, read expression, effect function changing it, value read
+    # first, msg.value).  The RIGHT operand is a call of the effect function (returns 1).  CONTEXTS: the compound form.
+    def rve_read(self, rd):
+        dyn2 = E("list", DARR, elems=[c(1), c(2)])
+        return {
+            "sv": ([S("assign", base=bsto(SV), path=[], e=c(3), decl=None)], sto(SV), "bump1", 3, 0),
+            "tv": ([S("assign", base=("tra", "tv", TV), path=[], e=c(3), decl=None)], E("tra", U256, name="tv", id=TV), "bumpt", 3, 0),
+            "len": ([S("assign", base=bsto(DYN), path=[], e=dyn2, decl=None)], E("len", U256, a=sto(DYN)), "app", 2, 0),
+            "lenp": ([S("assign", base=bsto(DYN), path=[], e=dyn2, decl=None)], E("len", U256, a=sto(DYN)), "popd", 2, 0),
+            "map": ([S("assign", base=bsto(MP), path=[("i", c(2))], e=c(5), decl=None)], E("idx", U256, a=sto(MP), i=c(2)), "wmap", 5, 0),
+            "arr": ([S("assign", base=bsto(ARR), path=[("i", c(1))], e=c(5), decl=None)], E("idx", U256, a=sto(ARR), i=c(1)), "wr", 5, 0),
+            "dynel": ([S("assign", base=bsto(DYN), path=[], e=dyn2, decl=None)], E("idx", U256, a=sto(DYN), i=c(0)), "wr", 1, 0),
+            "fld": ([S("assign", base=bsto(PV), path=[], e=E("list", PAIR, elems=[c(4), c(5)]), decl=None)],
+                    E("fld", U256, a=sto(PV), name="a", id=0), "wpv", 4, 0),
+            "bal": ([], E("balance", U256, hid=BAL), "pay", 100, 100),
+        }[rd]
+
+    RVE_READS = ["sv", "tv", "len", "lenp", "map", "arr", "dynel", "fld", "bal"]
+    RVE_CONTEXTS = ["add", "sub", "mul", "div", "mod", "cmp", "bit", "and", "or", "max", "min", "ifexp", "list", "struct",
+                    "callargs", "subscript", "assign_rhs", "aug"]
+
+    def rve(self, ctxk, rd):
+        setup, R, fn, v0, value = self.rve_read(rd)
+        F = self.call(fn)
+
+        def b(op, x, y, t=U256):
+            return E("bin", t, op=op, a=x, b=y)
+        ret = U256
+        pre, post = [], None
+        if ctxk == "add":
+            e = b("Add", R, F)
+        elif ctxk == "sub":
+            e = b("Sub", b("Add", R, c(5)), F)
+        elif ctxk == "mul":
+            e = b("Mul", R, b("Add", F, c(1)))
+        elif ctxk == "div":
+            e = b("Div", b("Mul", R, c(7)), b("Add", F, c(1)))
+        elif ctxk == "mod":
+            e = b("Mod", R, b("Add", F, c(6)))
+        elif ctxk == "cmp":
+            up = rd not in ("lenp", "bal")      # does the effect increase the value read?
+            op = self.r.choice(["Eq", "Le" if up else "Ge", "Lt" if up else "Gt"])
+            X = b("Sub", b("Add", F, c(v0)), c(1))      # = v0
+            if op in ("Lt", "Gt"):
+                X = b("Add", X, c(1)) if op == "Lt" else b("Sub", X, c(1))
+            e, ret = E("cmp", BOOL, op=op, a=R, b=X), BOOL
+        elif ctxk == "bit":
+            e = b(self.r.choice(["BXor", "BOr"]), R, b("Mul", F, c(2 ** 16)))
+        elif ctxk == "and":
+            e, ret = E("and", BOOL, a=E("cmp", BOOL, op="Eq", a=R, b=c(v0)), b=E("cmp", BOOL, op="Eq", a=F, b=c(1))), BOOL
+        elif ctxk == "or":
+            e, ret = E("or", BOOL, a=E("cmp", BOOL, op="Ne", a=R, b=c(v0)), b=E("cmp", BOOL, op="Ne", a=F, b=c(1))), BOOL
+        elif ctxk == "max":
+            e = E("max", U256, a=R, b=F)
+        elif ctxk == "min":
+            e = E("min", U256, a=R, b=b("Add", F, c(1000)))
+        elif ctxk == "ifexp":
+            e = E("ifexp", U256, c=E("cmp", BOOL, op="Eq", a=R, b=c(v0)), a=b("Add", F, c(40)), b=c(0))
+        elif ctxk == "list":
+            e, ret = E("list", ARR3, elems=[R, F, c(3)]), ARR3
+        elif ctxk == "struct":
+            e, ret = E("list", PAIR, elems=[R, F]), PAIR
+        elif ctxk == "callargs":
+            e = self.call("h", R, F)
+        elif ctxk == "subscript":
+            pre = [S("assign", base=bsto(MATV), path=[("i", c(k))], e=E("list", ARR3, elems=[c(10 * k + 1), c(10 * k + 2), c(10 * k + 3)]), decl=None)
+                   for k in range(3)]
+            e = E("idx", U256, a=E("idx", ARR3, a=sto(MATV), i=b("Mod", R, c(3))), i=F)
+        elif ctxk == "assign_rhs":
+            # the right-hand side is evaluated before the target's index expression
+            pre = [S("assign", base=("loc", "z", 0), path=[], e=E("list", ARR3, elems=[c(0), c(0), c(0)]), decl=ARR3)]
+            body = setup + pre + [S("assign", base=("loc", "z", 0), path=[("i", F)], e=R, decl=None),
+                                  S("return", e=E("idx", U256, a=E("var", ARR3, name="z", id=0), i=c(1)))]
+            self.add_test(f"rve_{ctxk}_{rd}", U256, body, value=value)
+            return
+        elif ctxk == "aug":
+            # x += R + F through a local: the read is part of the right-hand side, before the call
+            body = setup + [S("assign", base=("loc", "x", 0), path=[], e=c(1000), decl=U256),
+                            S("aug", op="Add", ty=U256, base=("loc", "x", 0), path=[], e=b("Add", R, F)),
+                            S("return", e=E("var", U256, name="x", id=0))]
+            self.add_test(f"rve_{ctxk}_{rd}", U256, body, value=value)
+            return
+        else:
+            raise ValueError(ctxk)
+        self.add_test(f"rve_{ctxk}_{rd}", ret, setup + pre + [S("return", e=e)], value=value)
 
     # ------------------------------------------------------------ positions
     def pos_binop_bit(self):
@@ -390,17 +500,32 @@ class Builder:
                  "by_value_scalar", "copy_then_effect", "arg_copy_vs_effect"]
 
 
+RVE_POSITIONS = [f"rve_{cx}_{rd}" for cx in Builder.RVE_CONTEXTS for rd in Builder.RVE_READS]
+
+
+def uses_tra(pos):
+    return pos.startswith("rve_") and pos.endswith("_tv")
+
+
+def _emit(b, pos):
+    if pos.startswith("rve_"):
+        _, cx, rd = pos.split("_", 2) if not pos.startswith("rve_assign_rhs") else ("rve", "assign_rhs", pos[len("rve_assign_rhs_"):])
+        b.rve(cx, rd)
+    else:
+        getattr(b, "pos_" + pos)()
+
+
 def build_one(seed_rng_factory, pos, rnd):
-    b = Builder(seed_rng_factory(f"{rnd}:{pos}"))
-    getattr(b, "pos_" + pos)()
+    b = Builder(seed_rng_factory(f"{rnd}:{pos}"), with_tra=uses_tra(pos))
+    _emit(b, pos)
     return b
 
 
 def build_group(seed_rng_factory, group):
     """group: list of (pos, round) -> (Program, unordered flags, labels); each test is generated from its own PRNG so a test
     is the same whether built alone or in a bundle"""
-    b = Builder(None)
+    b = Builder(None, with_tra=any(uses_tra(pos) for pos, _ in group))
     for pos, rnd in group:
         b.r = seed_rng_factory(f"{rnd}:{pos}")
-        getattr(b, "pos_" + pos)()
+        _emit(b, pos)
     return b.p, dict(b.unordered), [f.name for f in b.p.exts]
